@@ -199,15 +199,16 @@ func checkC16(c *Ctx) {
 		}
 		if u, ok := site.Call.Args[0].(*ssa.UnOp); ok {
 			if al, ok := u.X.(*ssa.Alloc); ok {
-				for _, st := range storesTo(al) {
-					if st == ssa.Value(p) {
-						argOK = true
-					}
+				// the cell must hold the parameter and nothing else (no `cfg = withDefaults(cfg)`
+				// before validation: the validator would see a rewritten configuration)
+				sts := storesTo(al)
+				if len(sts) == 1 && sts[0] == ssa.Value(p) {
+					argOK = true
 				}
 			}
 		}
 	}
-	c.check(argOK, "R2", "validator receives the constructor's config parameter", site, "argument %s", m.Sym.Of(site.Call.Args[0]))
+	c.check(argOK, "R2", "validator receives the constructor's config parameter", site, "argument %s is the unmodified parameter: %v (a configuration rewritten before validation - defaults filled in, values clamped - makes documented-invalid inputs pass)", m.Sym.Of(site.Call.Args[0]), argOK)
 	nContacts := 0
 	eachInstr(ctor, func(in ssa.Instruction) {
 		switch x := in.(type) {
